@@ -245,3 +245,22 @@ Definition go_andalso {S R} (a : bool) (rhs : (bool -> res S R) -> res S R) (k :
   if a then rhs k else k false.
 Definition go_orelse {S R} (a : bool) (rhs : (bool -> res S R) -> res S R) (k : bool -> res S R) : res S R :=
   if a then k true else rhs k.
+
+(* ---- a *bufio.Reader as a value -----------------------------------------------------------
+   The bytes still to come, the error that the underlying reader returns once they are
+   exhausted (1 = io.EOF, 2 = any other error; it is returned again by every later call), and
+   the byte that UnreadByte would put back.  How the bytes arrive (in which pieces) is not
+   visible through ReadByte; that is C06's subject. *)
+Record go_stream : Type := Stream { st_rest : list N; st_term : Z; st_last : option N }.
+
+Definition go_readbyte (s : go_stream) : N * Z * go_stream :=
+  match st_rest s with
+  | b :: r => (b, 0%Z, Stream r (st_term s) (Some b))
+  | [] => (0%N, st_term s, Stream [] (st_term s) None)
+  end.
+
+Definition go_unreadbyte (s : go_stream) : go_stream :=
+  match st_last s with
+  | Some b => Stream (b :: st_rest s) (st_term s) None
+  | None => s
+  end.
